@@ -44,8 +44,6 @@ if __name__=="__main__":
         if n.get("why"): s.append("Why these are necessary conditions: "+n["why"]+"\n")
         s.append("Today: "+n.get("today","all obligations discharged.")+"\n")
         s.append("Not decided: "+n.get("not","")+"\n")
-    s.append("### C19 — I/O buffers behave as exact FIFO byte queues — **not applicable**\n")
-    s.append(notes["C19"]["text"]+"\n")
     parts.append("\n".join(s))
     parts.append(open(V+"/docs/design_5_findings.md").read())
     # section 6 with seed table
